@@ -111,7 +111,7 @@ func (c19) Enumerate(tier string, seed int64, yield func(string, core.Case) bool
 					continue
 				}
 				g := append(copyCNF(f), []int{e.a, 7}, []int{e.a, -7}, []int{e.b, 8}, []int{e.b, -8})
-				if !cnf("cnf/AMO", g, 8, [][]string{{"-cp"}}) {
+				if !cnf("cnf/AMO", g, 8, [][]string{{"-cp"}, {"-cp", "-certified"}}) {
 					return
 				}
 			}
